@@ -37,8 +37,9 @@ os.environ.setdefault("MKL_NUM_THREADS", "1")
 sys.path.insert(0, os.path.dirname(os.path.dirname(os.path.abspath(__file__))))
 from vlib import core, tla, tlc  # noqa: E402
 
-INVARIANTS = ["TypeOK", "CurrentHistoryOnly", "Formula", "SumOne", "PermInvariant", "ShiftInvariant", "SplitInvariant",
+INVARIANTS = ["TypeOK", "Formula", "SumOne", "PermInvariant", "ShiftInvariant", "SplitInvariant",
               "SingleBatchSNIS", "Enclosure"]
+REUSE_INVARIANTS = ["TypeOK", "CurrentHistoryOnly"] + INVARIANTS[1:]     # CurrentHistoryOnly only says something when the object is reused
 ACTIONS = ["Init", "Mix", "Weigh", "Normalise"]
 WRONG = ["NoLogZ", "NoMixW", "MixT", "MeanT", "MaxNorm"]
 REUSE_MODEL = dict(ts="{1, 2}", nmax=1, kmax=2, shiftmax=4, reuse="TRUE", replmod=8, workers=4)
@@ -439,11 +440,12 @@ def make_sequences(table, rng, n_update, n_file):
     for route, n in (("update_from_dict", n_update), ("load_state", n_file)):
         for i in range(n):
             h1 = hists[rng.randint(len(hists))]
+            pool2 = by_len.get(1, hists) if i % 2 == 1 else hists      # every other sequence can be followed by a commit
             while True:
-                h2 = hists[rng.randint(len(hists))]
+                h2 = pool2[rng.randint(len(pool2))]
                 if h2 != h1:
                     break
-            if i % 3 == 0:      # same number of samples, other content: nothing but the values can reveal staleness
+            if i % 4 == 0:      # same number of samples, other content: nothing but the values can reveal staleness
                 same = [h for h in (hists[rng.randint(len(hists))] for _ in range(40)) if h != h1 and sum(b[0] for b in h) == sum(b[0] for b in h1)]
                 if same:
                     h2 = same[0]
@@ -615,11 +617,11 @@ def main():
 
     def run_wrong(v):
         # without the declarative Formula invariant: the behavioural properties alone must pin the formula
-        base = REUSE_MODEL if v == "StaleMix" else small
-        return tlc.run_tlc("MISWeights", cfg_text(base, variant=v, invs=[i for i in INVARIANTS if i != "Formula"]), workers=2)
+        base, invs = (REUSE_MODEL, REUSE_INVARIANTS) if v == "StaleMix" else (small, INVARIANTS)
+        return tlc.run_tlc("MISWeights", cfg_text(base, variant=v, invs=[i for i in invs if i != "Formula"]), workers=2)
 
     def run_reuse():
-        return tlc.run_tlc("MISWeights", cfg_text(REUSE_MODEL), coverage=True, workers=REUSE_MODEL["workers"])
+        return tlc.run_tlc("MISWeights", cfg_text(REUSE_MODEL, invs=REUSE_INVARIANTS), coverage=True, workers=REUSE_MODEL["workers"])
 
     with ThreadPoolExecutor(max_workers=len(mods) + len(WRONG) + 2) as ex:
         fut_i = [ex.submit(run_intended, m) for m in mods]
@@ -632,7 +634,7 @@ def main():
     refuted = {}
     for v, r in wrong.items():
         r.cleanup()
-        if r.status != "violation" or r.violated not in INVARIANTS:
+        if r.status != "violation" or r.violated not in REUSE_INVARIANTS:
             raise RuntimeError(f"vacuity: TLC did not refute the seeded wrong formula {v} (status {r.status} {r.violated})")
         refuted[v] = r.violated
 
@@ -647,7 +649,7 @@ def main():
         ck.violation("spec:reuse:" + reuse_res.violated, f"TLC: {reuse_res.violated} violated on MISWeights.tla (object-reuse model)",
                      {"trace": reuse_res.error_trace, "model": REUSE_MODEL})
     else:
-        for a in ACTIONS + ["Replace", "Commit"]:
+        for a in ACTIONS + ["DoReplace", "DoCommit"]:
             if reuse_res.coverage.get(a, (0, 0))[1] <= 0:
                 raise RuntimeError(f"vacuity: action {a} has zero coverage in the object-reuse model: {reuse_res.coverage}")
     states += reuse_res.distinct
@@ -775,7 +777,7 @@ def main():
         "wrong_formulas_refuted_by_tlc": refuted,
         "object_reuse": reuse,
         "models": cov,
-        "invariants": INVARIANTS,
+        "invariants": REUSE_INVARIANTS,
     })
 
 
